@@ -16,7 +16,7 @@ import ast
 from .. import alg, dim
 from ..alg import Undecided, sym, num, add, mul, div
 from ..core import (tuple_agreement, AnalysisError, dotted, unparse, params, walk_no_nested, strip_docstring, squash, assign_value,
-                    assignments, calls_to, returns_of, single_return, tuple_names)
+                    assignments, calls_to, returns_of, single_return, tuple_names, literal)
 from ..symexec import Interp, is_ir, Opaque
 
 KMOD = "irispie.fords.kalmans"
@@ -394,12 +394,112 @@ def rule_r7(chk, rid="C03-R7"):
                "initialised before the loop and set to t whenever period t has observations", km.loc(pred))
 
 
+def rule_r8(chk):
+    chk.rule("C03-R8", "one period axis: the filter loop runs over the periods of the input dataslate (which prepend_initial / "
+             "append_terminal extend beyond the base span); the per-period info series (log_det_F, likelihood contributions) and the "
+             "frame are stamped with that same dataslate's periods, and the arrays behind them are preallocated with num_periods", floor=4)
+    km = chk.repo.mod(KMOD)
+    kf = km.func("kalman_filter")
+    chk.saw(km, "kalman_filter")
+    pc = calls_to(kf, "predict")
+    ci = [n for n in ast.walk(kf) if isinstance(n, ast.Call) and isinstance(n.func, ast.Attribute) and n.func.attr == "create_out_info"]
+    if len(pc) != 1 or len(ci) != 1:
+        chk.undecided("C03-R8", "fords.kalmans.kalman_filter[period axis]", "predict / create_out_info calls not recognised", km.loc(kf))
+        return
+    kw = {k.arg: k.value for k in pc[0].keywords}
+    npv = kw.get("num_periods")
+    ds = unparse(npv.value) if isinstance(npv, ast.Attribute) and npv.attr == "num_periods" else None
+    chk.ob("C03-R8", "fords.kalmans.kalman_filter[filtered periods]", True if ds else None,
+           f"predict(num_periods={unparse(npv) if npv is not None else None})", km.loc(pc[0]))
+    if ds is None:
+        return
+    # which dataslate is it a variant of?
+    root = ds
+    for n in ast.walk(kf):
+        if isinstance(n, ast.Assign) and isinstance(n.value, ast.Call) and dotted(n.value.func) == "zip":
+            tg = tuple_names(n.targets[0]) if isinstance(n.targets[0], ast.Tuple) else None
+        if isinstance(n, ast.For) and isinstance(n.target, ast.Tuple) and ds in [unparse(e) for e in n.target.elts]:
+            idx = [unparse(e) for e in n.target.elts].index(ds)
+            it = n.iter
+            if isinstance(it, ast.Name):
+                it = assign_value(kf, it.id)
+            if isinstance(it, ast.Call) and dotted(it.func) == "zip" and idx < len(it.args):
+                a = it.args[idx]
+                if isinstance(a, ast.Call) and isinstance(a.func, ast.Attribute) and a.func.attr == "iter_variants":
+                    root = unparse(a.func.value)
+    arg = ci[0].args[0] if ci[0].args else None
+    at = unparse(arg) if arg is not None else None
+    same_axis = at in (f"{ds}.periods", f"{root}.periods")
+    # is the dataslate's span possibly wider than the argument `span`?
+    mk = [n for n in ast.walk(kf) if isinstance(n, ast.Call) and (dotted(n.func) or "").endswith("from_databox_for_slatable")]
+    extends = False
+    if mk:
+        mkw = {k.arg: k.value for k in mk[0].keywords}
+        extends = any(not (isinstance(mkw.get(o), ast.Constant) and mkw[o].value is False) for o in ("prepend_initial", "append_terminal") if o in mkw)
+    ok = True if same_axis else (False if extends else None)
+    chk.ob("C03-R8", "fords.kalmans.kalman_filter[info series periods]", ok,
+           f"create_out_info({at}) vs filtered periods {ds}.periods" + ("" if same_axis else
+           "; the dataslate is built with prepend_initial/append_terminal passed through, so it can be longer than that argument: "
+           "Series(periods=..., values=<one entry per filtered period>) raises a shape mismatch"), km.loc(ci[0]))
+    fr = [n for n in ast.walk(kf) if isinstance(n, ast.Call) and dotted(n.func) == "Frame"]
+    if fr:
+        fkw = {k.arg: unparse(k.value) for k in fr[0].keywords}
+        ok = fkw.get("start") == f"{root}.periods[0]" and fkw.get("end") == f"{root}.periods[-1]" and fkw.get("simulation_end") == f"{root}.periods[-1]"
+        chk.ob("C03-R8", "fords.kalmans.kalman_filter[frame]", ok, f"Frame({fkw}) covers the dataslate's periods", km.loc(fr[0]))
+    # info series are built from per-period arrays preallocated by num_periods
+    coi = km.methods("Cache").get("create_out_info")
+    pre = km.class_attr("Cache", "_slots_to_preallocate")
+    pre_names = [literal(e) for e in pre.elts] if pre is not None else []
+    used = [n.attr for n in ast.walk(coi) if isinstance(n, ast.Attribute) and isinstance(n.value, ast.Name) and n.value.id == "self"
+            and any(isinstance(p_, ast.keyword) and p_.arg == "values" and p_.value is n for c in ast.walk(coi) if isinstance(c, ast.Call) for p_ in c.keywords)]
+    span_p = params(coi)[1]
+    stamped = [c for c in ast.walk(coi) if isinstance(c, ast.Call) and any(k.arg == "values" for k in c.keywords)]
+    ok = bool(stamped) and all(unparse({k.arg: k.value for k in c.keywords}.get("periods")) == span_p for c in stamped)
+    chk.ob("C03-R8", "fords.kalmans.Cache.create_out_info[stamping]", ok, f"each per-period array ({used}) is stamped with the periods argument", km.loc(coi))
+    cache_methods = km.methods("Cache")
+
+    def per_period(expr, scope, depth=0):
+        """True if expr has one entry per filtered period: a preallocated slot, or an unfiltered comprehension over such (zipped) arrays"""
+        if depth > 16:
+            return None
+        if isinstance(expr, ast.Attribute) and isinstance(expr.value, ast.Name) and expr.value.id == "self":
+            if expr.attr in pre_names:
+                return True
+            defs = [(n.value, f) for f in cache_methods.values() for n in ast.walk(f)
+                    if isinstance(n, ast.Assign) and unparse(n.targets[0]) == f"self.{expr.attr}" and not (isinstance(n.value, ast.Constant) and n.value.value is None)]
+            if not defs:
+                return None
+            rs = [per_period(v, f, depth + 1) for v, f in defs]
+            return True if all(r is True for r in rs) else False if any(r is False for r in rs) else None
+        if isinstance(expr, ast.Name):
+            v = assign_value(scope, expr.id)
+            return per_period(v, scope, depth + 1) if v is not None else None
+        if isinstance(expr, ast.Call) and dotted(expr.func) in ("tuple", "list") and len(expr.args) == 1:
+            return per_period(expr.args[0], scope, depth + 1)
+        if isinstance(expr, (ast.GeneratorExp, ast.ListComp)):
+            if len(expr.generators) != 1:
+                return None
+            g = expr.generators[0]
+            if g.ifs:
+                return False            # a filter changes the length
+            return per_period(g.iter, scope, depth + 1)
+        if isinstance(expr, ast.Call) and dotted(expr.func) == "zip":
+            rs = [per_period(a, scope, depth + 1) for a in expr.args]
+            return True if rs and all(r is True for r in rs) else False if any(r is False for r in rs) else None
+        return None
+    for u in used:
+        r = per_period(ast.parse(f"self.{u}", mode="eval").body, coi)
+        chk.ob("C03-R8", f"fords.kalmans.Cache[{u} per filtered period]", r,
+               f"{u} has one entry per filtered period (preallocated by num_periods, or an unfiltered comprehension over such arrays)", km.loc(coi))
+
+
 def run(chk):
     rule_r1_r2(chk)
     rule_r7(chk)
     rule_r3_r4(chk)
     rule_r5(chk)
     rule_r6(chk)
+    rule_r8(chk)
     chk.assumptions = [
         "equality with exact Gaussian conditioning is numerical: NOT decided (only the algebraic/structural clauses above)",
         "diffuse initialisation and the smoother algebra beyond shapes are not decided",
